@@ -151,14 +151,95 @@ spec.contract(
         configured(s.self), Not(IsNone(s.self._analysis_data))))],
     ensures=[])
 
+# --- the correlation test: verified (NumPy / SciPy calls uninterpreted) ------
+from mmverif.engine import numeric_ledger as nl  # noqa: E402
+from mmverif.engine.symexec import WORLD  # noqa: E402
+
+for _n in ('numpy.tanh', 'numpy.arctanh'):
+  nl.gen(_n, 'same')
+nl.gen('scipy.stats.norm.ppf', 'real')
+
+NROWS = z3.Function('ANA_NROWS', ANA_SORT, I)
+NCOLS = z3.Function('ANA_NCOLS', ANA_SORT, I)
+ASSUMPTIONS.append(
+    'analysis table: shape[0] is its number of rows (>= 0), .x / .y are its '
+    'control / treatment columns as arrays; np.corrcoef(a, b)[0, 1], np.tanh, '
+    'np.arctanh, np.sqrt, scipy.stats.norm.ppf are functions of their '
+    'arguments (uninterpreted, floats as reals)')
+
+
+def _ana_attr(name):
+  def deco(f):
+    WORLD.attr_handlers[('AnalysisData', name)] = f
+    return f
+  return deco
+
+
+@_ana_attr('shape')
+def _ana_shape(ex, recv, node):
+  ex.ctx.assume(NROWS(recv.t) >= 0)
+  return VTuple([VInt(NROWS(recv.t)), VInt(NCOLS(recv.t))])
+
+
+@_ana_attr('x')
+def _ana_x(ex, recv, node):
+  return nl.arr(z3.Function('ANA_COL_X', ANA_SORT, nl.Arr)(recv.t))
+
+
+@_ana_attr('y')
+def _ana_y(ex, recv, node):
+  return nl.arr(z3.Function('ANA_COL_Y', ANA_SORT, nl.Arr)(recv.t))
+
+
+def _thr(n, min_cor, level):
+  """tanh(arctanh(min_cor) + Phi^-1(level) / sqrt(n - 3))"""
+  tanh = z3.Function('numpy.tanh', R, R)
+  atanh = z3.Function('numpy.arctanh', R, R)
+  ppf = z3.Function('scipy.stats.norm.ppf', R, R)
+  sqrt = z3.Function('numpy.sqrt', I, R)
+  return tanh(atanh(min_cor) + ppf(level) / sqrt(n - 3))
+
+
+def _obs_cor(o):
+  a = unwrap(o._analysis_data).val.t
+  mat = z3.Function('corrcoef', nl.Arr, nl.Arr, sort_named('Mat'))
+  item = z3.Function('mat_item', sort_named('Mat'), I, I, R)
+  return item(mat(z3.Function('ANA_COL_X', ANA_SORT, nl.Arr)(a),
+                  z3.Function('ANA_COL_Y', ANA_SORT, nl.Arr)(a)), 0, 1)
+
+
+spec.contract(
+    'TBRDiagnostics._min_correlation_threshold',
+    params={'n': TInt(), 'min_cor': TReal(), 'credible_level': TReal()},
+    result=TReal(np=True), modifies=[], props=('C19',),
+    raises={'ValueError': ('fewer than 4 observations',
+                           lambda s: N(s.n) < 4)},
+    ensures=[('threshold = tanh(arctanh(min_cor) + normal quantile(level) / '
+              'sqrt(n - 3))',
+              lambda s: N(s.result) == _thr(N(s.n), N(s.min_cor),
+                                            N(s.credible_level)))])
+
+spec.inline.add('TBRDiagnostics.obs_cor')
 spec.contract(
     'TBRDiagnostics._correlation_test',
     params={'min_cor': TReal(), 'prefer_cor': TReal(),
             'credible_level': TReal()},
-    result=TBool(), modifies=[], props=('C19',), assumed=ASSUMED,
+    result=TBool(), modifies=[], props=('C19',),
     requires=[('configured, analysis data present', lambda s: And(
         configured(s.self), Not(IsNone(s.self._analysis_data))))],
-    ensures=[])
+    raises={'ValueError': ('the analysis data have fewer than 4 rows',
+                           lambda s: NROWS(unwrap(
+                               s.self._analysis_data).val.t) < 4)},
+    ensures=[('passes exactly when the observed correlation of the two '
+              'aggregated series is at least max(preferred correlation, '
+              'minimum threshold for the number of rows)',
+              lambda s: B(s.result) == (_obs_cor(s.self) >= z3.If(
+                  N(s.prefer_cor) >= _thr(
+                      NROWS(unwrap(s.self._analysis_data).val.t),
+                      N(s.min_cor), N(s.credible_level)),
+                  N(s.prefer_cor),
+                  _thr(NROWS(unwrap(s.self._analysis_data).val.t),
+                       N(s.min_cor), N(s.credible_level)))))])
 
 def _both(o):
   """Both group ids occur in the group column of the screened data."""
@@ -231,7 +312,9 @@ spec.contract(
                       Eq(Val(s.self._target), sub(s.self, '_df_names').response))),
     ])
 
-FUNCTIONS = ['TBRDiagnostics.fit', 'TBRDiagnostics._create_analysis_data']
+FUNCTIONS = ['TBRDiagnostics.fit', 'TBRDiagnostics._create_analysis_data',
+             'TBRDiagnostics._min_correlation_threshold',
+             'TBRDiagnostics._correlation_test']
 LEMMAS = []
 
 # ---------------------------------------------------------------------------
